@@ -59,7 +59,8 @@ H = {
 FIXED = {"cms-builtin-hash-of-str", "cachedstore-flush-iterates-set", "randomeviction-choice-from-set",
          "randomeviction-choice-from-set-multitier", "writeback-policy-keys-from-set",
          "event-counter-reset-pre-built-events-repeat", "event-counter-reset-pre-built-events-after-others",
-         "sketch-frozenset-item-repr-cms", "sketch-frozenset-item-repr-bloom-hll"}
+         "sketch-frozenset-item-repr-cms", "sketch-frozenset-item-repr-bloom-hll",
+         "parallel-same-instant-order-follows-thread-completion"}
 write = "--write" in sys.argv
 old = "--expect-old" in sys.argv
 bad = 0
